@@ -7,6 +7,13 @@ ROOT = os.path.dirname(os.path.dirname(os.path.abspath(__file__)))
 ALL = ["C%02d" % i for i in range(1, 20)]
 
 CHECKS = {
+    "C07": {
+        "spec": "specs/Composite.tla + CompositeTrace.tla",
+        "text": "TLC checks the seven formulas of C07 on Composite.tla for the uniform and the three weighted composites over all histories (writes, reads, child state changes, children added/removed) to a bounded depth, with exact rational shares (scaled by lcm(1..16)); TLC -simulate generates behaviours of depth 14 that are replayed on real UniformComposite/WeightedComposite objects over recording children, together with random histories; every trace is validated by TLC on the observed shares and aggregates.",
+        "note": "supply in whole units, fitness in quarters, <= 4 children with independent attributes; observed floats must be within 1e-9 relative of the exact rational; tiny/huge magnitudes not explored.",
+        "design": "5/C07, 4.8",
+        "technique": "TLA+ model checking (TLC) + TLC-simulated behaviours replayed on the real composites + trace validation",
+    },
     "C08": {
         "spec": "specs/Controllers.tla + ControllersTrace.tla",
         "text": "Per controller kind (Linear, RelativeSupply, Stepwise, DemandSwitch) TLC checks the eleven formulas of C08 exhaustively over all pool states of the grid (fitness exactly on, below and above the thresholds) for families of parameters and of rule / slave tables in every declaration order; the state graph of a smaller family is emitted and an edge cover of it, plus random multi-step histories with pool changes between steps, is executed on the real controllers (regulate(), or Stepwise.run stepped under trio's MockClock) with recording rules / slaves; every trace is validated by TLC.",
